@@ -57,7 +57,8 @@ Proof. exists []. cbn. repeat split; auto. lia. Qed.
 Lemma ext_trans C i1 i2 i3 : ext C i1 i2 -> ext C i2 i3 -> ext C i1 i3.
 Proof.
   intros (t1 & R1 & P1 & D1 & C1) (t2 & R2 & P2 & D2 & C2). exists (t1 ++ t2).
-  rewrite R1, R2, app_assoc, forallb_app, C1, C2, app_length. repeat split; auto; try lia. congruence.
+  split; [rewrite R1, R2, app_assoc; reflexivity|]. split; [rewrite P2, P1, app_length; lia|].
+  split; [congruence|]. rewrite forallb_app, C1, C2. reflexivity.
 Qed.
 
 Lemma ext_len C i i' : ext C i i' -> length (rest i') <= length (rest i).
@@ -193,7 +194,7 @@ Qed.
 Lemma progress_any : progress any.
 Proof.
   intros i a i' E. unfold any in E. destruct (rest i) as [|b r] eqn:R; [discriminate|].
-  inversion E; subst. eapply advance1_len; eauto.
+  inversion E; subst. rewrite <- R. eapply advance1_len; eauto.
 Qed.
 Lemma safe_any P : safe_on P any.
 Proof. intros i _. unfold any. destruct (rest i); exact I. Qed.
@@ -208,7 +209,7 @@ Proof. apply monoC_one_of. reflexivity. Qed.
 Lemma progress_one_of f : progress (one_of f).
 Proof.
   intros i a i' E. unfold one_of in E. destruct (rest i) as [|b r] eqn:R; [discriminate|].
-  destruct (f b) eqn:F; [|discriminate]. inversion E; subst. eapply advance1_len; eauto.
+  destruct (f b) eqn:F; [|discriminate]. inversion E; subst. rewrite <- R. eapply advance1_len; eauto.
 Qed.
 Lemma safe_one_of P f : safe_on P (one_of f).
 Proof. intros i _. unfold one_of. destruct (rest i) as [|b r]; [exact I|]. destruct (f b); exact I. Qed.
@@ -235,8 +236,8 @@ Proof. eapply valP_weaken; [|apply valP_one_of]. intros a H. apply byte_eqb_eq i
 Lemma lit_inv l i a i' : lit l i = Ok a i' -> a = l /\ i' = advance (length l) i /\ rest i = l ++ rest i'.
 Proof.
   unfold lit. destruct (strip_prefix l (rest i)) as [r|] eqn:S; [|discriminate].
-  intro E; inversion E; subst. apply strip_prefix_spec in S. repeat split.
-  unfold advance; cbn [rest]. rewrite S. clear. induction l; simpl; auto.
+  intro E; inversion E; subst a i'. apply strip_prefix_spec in S. repeat split.
+  unfold advance; cbn [rest]. rewrite S at 1. f_equal. rewrite S. clear. induction l; simpl; auto.
 Qed.
 Lemma monoC_lit C l : forallb C l = true -> monoC C (lit l).
 Proof.
@@ -686,20 +687,32 @@ Section Unchecked.
 End Unchecked.
 
 (* ---- fuelled loops --------------------------------------------------------------------------------- *)
+Lemma repeat0_f_mono C {A} (p : parser A) : monoC C p ->
+  forall fuel acc i l i', repeat0_f fuel p acc i = Ok l i' -> ext C i i'.
+Proof.
+  intros Hp. induction fuel as [|f IH]; intros acc i l i' H; cbn [repeat0_f] in H; [discriminate|].
+  dresH H E.
+  - destruct (Nat.eqb _ _); [discriminate|]. eapply ext_trans; [eapply Hp, E|eapply IH, H].
+  - inversion H; subst. apply ext_refl.
+Qed.
+
+Lemma separated_loop_mono C {A Sp} (p : parser A) (sep : parser Sp) : monoC C p -> monoC C sep ->
+  forall fuel acc i l i', separated_loop fuel p sep acc i = Ok l i' -> ext C i i'.
+Proof.
+  intros Hp Hq. induction fuel as [|f IH]; intros acc i l i' H; cbn [separated_loop] in H; [discriminate|].
+  destruct (sep i) as [x i1|? ?|? ?|?] eqn:E; try discriminate.
+  - destruct (Nat.eqb _ _); [discriminate|].
+    destruct (p i1) as [a i2|? ?|? ?|?] eqn:E2; try discriminate.
+    + eapply ext_trans; [eapply Hq, E|]. eapply ext_trans; [eapply Hp, E2|eapply IH, H].
+    + inversion H; subst. apply ext_refl.
+  - inversion H; subst. apply ext_refl.
+Qed.
+
 Section Loops.
   Context {A : Type}.
   Variable C : byte -> bool.
   Variable P : input -> Prop.
   Hypothesis Pc : closed P.
-
-  Lemma repeat0_f_mono (p : parser A) : monoC C p ->
-    forall fuel acc i l i', repeat0_f fuel p acc i = Ok l i' -> ext C i i'.
-  Proof.
-    intros Hp. induction fuel as [|f IH]; intros acc i l i' H; cbn [repeat0_f] in H; [discriminate|].
-    dresH H E.
-    - destruct (Nat.eqb _ _); [discriminate|]. eapply ext_trans; [eapply Hp, E|eapply IH, H].
-    - inversion H; subst. apply ext_refl.
-  Qed.
 
   (* termination + no debug assertion: with fuel > bytes left the loop never panics *)
   Lemma repeat0_f_safe (p : parser A) : mono p -> progress p -> safe_on P p ->
@@ -712,19 +725,19 @@ Section Loops.
   Qed.
 
   Lemma monoC_repeat0 (p : parser A) : monoC C p -> monoC C (repeat0 p).
-  Proof. intros Hp i l i' H. eapply repeat0_f_mono; eauto. Qed.
+  Proof. intros Hp i l i' H. eapply (repeat0_f_mono C p Hp), H. Qed.
   Lemma safe_repeat0 (p : parser A) : mono p -> progress p -> safe_on P p -> safe_on P (repeat0 p).
   Proof. intros Hm Hg Hs i Hi. unfold repeat0. apply repeat0_f_safe; auto. Qed.
 
   Lemma monoC_repeat1 (p : parser A) : monoC C p -> monoC C (repeat1 p).
   Proof.
     intros Hp i l i' H. unfold repeat1 in H. dresH H E.
-    eapply ext_trans; [eapply Hp, E|eapply repeat0_f_mono; eauto].
+    eapply ext_trans; [eapply Hp, E|eapply (repeat0_f_mono C p Hp), H].
   Qed.
   Lemma progress_repeat1 (p : parser A) : mono p -> progress p -> progress (repeat1 p).
   Proof.
     intros Hm Hg i l i' H. unfold repeat1 in H. dresH H E. apply Hg in E.
-    eapply repeat0_f_mono, ext_len in H; [|exact Hm]. lia.
+    apply (repeat0_f_mono anyb p Hm), ext_len in H. lia.
   Qed.
   Lemma safe_repeat1 (p : parser A) : mono p -> progress p -> safe_on P p -> safe_on P (repeat1 p).
   Proof.
@@ -733,18 +746,6 @@ Section Loops.
   Qed.
 
   Context {Sp : Type}.
-  Lemma separated_loop_mono (p : parser A) (sep : parser Sp) : monoC C p -> monoC C sep ->
-    forall fuel acc i l i', separated_loop fuel p sep acc i = Ok l i' -> ext C i i'.
-  Proof.
-    intros Hp Hq. induction fuel as [|f IH]; intros acc i l i' H; cbn [separated_loop] in H; [discriminate|].
-    destruct (sep i) as [x i1|? ?|? ?|?] eqn:E; try discriminate.
-    - destruct (Nat.eqb _ _); [discriminate|].
-      destruct (p i1) as [a i2|? ?|? ?|?] eqn:E2; try discriminate.
-      + eapply ext_trans; [eapply Hq, E|]. eapply ext_trans; [eapply Hp, E2|eapply IH, H].
-      + inversion H; subst. apply ext_refl.
-    - inversion H; subst. apply ext_refl.
-  Qed.
-
   (* the separator must make progress (winnow asserts it); the element need not *)
   Lemma separated_loop_safe (p : parser A) (sep : parser Sp) :
     mono p -> mono sep -> progress sep -> safe_on P p -> safe_on P sep ->
@@ -788,7 +789,7 @@ Section Loops.
   Lemma monoC_separated0 (p : parser A) (sep : parser Sp) : monoC C p -> monoC C sep -> monoC C (separated0 p sep).
   Proof.
     intros Hp Hq i l i' H. unfold separated0 in H. destruct (p i) as [a i1|? ?|? ?|?] eqn:E; try discriminate.
-    - eapply ext_trans; [eapply Hp, E|eapply separated_loop_mono; eauto].
+    - eapply ext_trans; [eapply Hp, E|eapply (separated_loop_mono C p sep Hp Hq), H].
     - inversion H; subst. apply ext_refl.
   Qed.
   Lemma safe_separated0 (p : parser A) (sep : parser Sp) :
@@ -809,13 +810,13 @@ Section Loops.
   Lemma monoC_separated1 (p : parser A) (sep : parser Sp) : monoC C p -> monoC C sep -> monoC C (separated1 p sep).
   Proof.
     intros Hp Hq i l i' H. unfold separated1 in H. destruct (p i) as [a i1|? ?|? ?|?] eqn:E; try discriminate.
-    eapply ext_trans; [eapply Hp, E|eapply separated_loop_mono; eauto].
+    eapply ext_trans; [eapply Hp, E|eapply (separated_loop_mono C p sep Hp Hq), H].
   Qed.
   Lemma progress_separated1 (p : parser A) (sep : parser Sp) :
     mono p -> mono sep -> progress p -> progress (separated1 p sep).
   Proof.
     intros Hm Hms Hg i l i' H. unfold separated1 in H. destruct (p i) as [a i1|? ?|? ?|?] eqn:E; try discriminate.
-    apply Hg in E. eapply separated_loop_mono, ext_len in H; eauto. lia.
+    apply Hg in E. apply (separated_loop_mono anyb p sep Hm Hms), ext_len in H. lia.
   Qed.
   Lemma safe_separated1 (p : parser A) (sep : parser Sp) :
     mono p -> mono sep -> progress sep -> safe_on P p -> safe_on P sep -> safe_on P (separated1 p sep).
